@@ -486,6 +486,13 @@ func (fr *Frame) evalBuiltin(st *State, call *ast.CallExpr, name string) []*Term
 			return []*Term{Acc(v, "len")}
 		case *types.Map:
 			st.Assume(Implies(Eq(Acc(v, "card"), IntLit(0)), Eq(Acc(v, "dom"), ConstArr(v.S.Fields[1].S, False))))
+			{
+				// at most one key: any two keys in the domain are equal
+				ks := v.S.Fields[1].S.K
+				a, b := Var("a!c1", ks), Var("b!c1", ks)
+				st.Assume(Implies(Le(Acc(v, "card"), IntLit(1)), Forall([]*Term{a, b},
+					Implies(And(Select(Acc(v, "dom"), a), Select(Acc(v, "dom"), b)), Eq(a, b)), []*Term{Select(Acc(v, "dom"), a), Select(Acc(v, "dom"), b)})))
+			}
 			return []*Term{Acc(v, "card")}
 		case *types.Basic:
 			l := fr.strLen(v)
@@ -1019,6 +1026,9 @@ func (fr *Frame) checkCallPre(st *State, fn *types.Func, recv *Term, args []*Ter
 	}
 	sig := fn.Type().(*types.Signature)
 	for i, c := range cps {
+		if len(c.Params) != len(args) {
+			continue // a clause for a different callee of the same name (other arity)
+		}
 		b := map[string]*SVal{}
 		for j, p := range c.Params {
 			if j < len(args) {
@@ -1031,6 +1041,8 @@ func (fr *Frame) checkCallPre(st *State, fn *types.Func, recv *Term, args []*Ter
 			name = fmt.Sprintf("%d", i+1)
 		}
 		fr.e.oblige(fr, st, "callpre:"+fn.Name()+"#"+name, "", fr.site("callpre", call), g, call, c, "")
+		// checked, then available to what follows (also lets a call-site clause serve as a proof hint)
+		st.Assume(g)
 	}
 }
 
